@@ -638,10 +638,32 @@ func TestVerifC15(t *testing.T) {
 		ruleInEffect := (effective && len(matched) > 0) || len(docs) < vfC15CountLeaves(ch)
 		vfCase(coq, vfKey(coq), nodes >= 3 && (links > 0 || ruleInEffect),
 			[]string{"ignore-file=" + igMode, fmt.Sprintf("links=%d", min(links, 3)), fmt.Sprintf("docs=%d", min(len(docs)/3*3, 12)),
-				fmt.Sprintf("matched=%v", effective && len(matched) > 0), fmt.Sprintf("igd=%s", strings.Join(igdNames, ","))},
+				fmt.Sprintf("matched=%v", effective && len(matched) > 0), fmt.Sprintf("igd=%s", strings.Join(igdNames, ",")),
+				fmt.Sprintf("file-or-link-named-like-ignored-dir=%v", vfC15IgdNamedLeaves(ch, igdNames) > 0)},
 			map[string]any{"nodes": nodes, "links": links, "docs": len(docs), "ignore_file": igMode, "matched": len(matched), "result": code})
 		os.RemoveAll(caseDir)
 	}
+}
+
+// vfC15IgdNamedLeaves counts the regular files and symlinks, outside directories ignored by name, whose own name is one of the
+// ignored DIRECTORY names (the `.git` file of a submodule or linked worktree, a link called `.hg`): they must be indexed.
+func vfC15IgdNamedLeaves(ns []*vfC15Node, igd []string) int {
+	c := 0
+	for _, n := range ns {
+		named := false
+		for _, d := range igd {
+			if n.Name == d {
+				named = true
+			}
+		}
+		switch {
+		case n.Kind == 3 && !named:
+			c += vfC15IgdNamedLeaves(n.Children, igd)
+		case (n.Kind == 0 || n.Kind == 1) && named:
+			c++
+		}
+	}
+	return c
 }
 
 // vfC15IgnorePatterns: the documented reading of an ignore file (one glob per line relative to the root, blank lines and
